@@ -37,6 +37,26 @@ class Arr(list):
 
     __rmul__ = __mul__
 
+    def __sub__(self, o):
+        if isinstance(o, list):
+            return Arr([a - b for a, b in zip(self, o, strict=True)])
+        return Arr([a - o for a in self])
+
+    def __rsub__(self, o):
+        return Arr([o - a for a in self])
+
+    def __truediv__(self, o):
+        if isinstance(o, list):
+            return Arr([a / b for a, b in zip(self, o, strict=True)])
+        return Arr([a / o for a in self])
+
+    def dot(self, o):
+        tot = 0
+        for a, b in zip(self, o, strict=True):
+            if is_sym(a) or is_sym(b) or (a != 0 and b != 0):
+                tot = tot + a * b
+        return tot
+
     def tolist(self):
         return list(self)
 
@@ -53,6 +73,15 @@ class FakeNP:
         if isinstance(v, (list, tuple, range)):
             return Arr(list(v))
         return Arr([v])
+
+    @staticmethod
+    def hstack(v):
+        return Arr(list(v))
+
+    @staticmethod
+    def log(v):
+        import math
+        return Arr([math.log(x) for x in v])
 
 
 FUNCS_L1 = ['ground_loads.py:HybridLoad.process_month_loads', 'ground_loads.py:monthdays', 'ground_loads.py:first_month_hour',
